@@ -7,6 +7,11 @@ import TempestVerif.Model.Kernel
             beta=<f> l=<f> lp=<f> g=<f> r=<f> z=<normal vector> per=<nats> refl=<nats>
         -> `<shape> <scale> <s> <draws> <candidate> <in_bounds 0|1> <proposal passed on> <dot> <dotp> <factor> <alpha> <accept 0|1> <new u>`
     adapt.F kind=<tpcn|rwm> sigma=<f> iter=<f> acc=<f> sigma0=<f>   -> `<new sigma>`
+    krun.F kind=<tpcn|rwm> d=<n> mus=<K rows> chols=<K matrices separated by |> invcovs=<K matrices> nus=<K floats>
+           sigmas=<K floats> beta=<f> iter=<f> sigma0=<f> per=<nats> refl=<nats>
+           us=<n rows> assign=<n nats> ls=<n floats> lps=<n floats> gs=<n floats> rs=<n floats> zs=<n rows>
+        -> `<walker 0 result>|<walker 1 result>|... <new sigmas>`  (walker results as for kstep.F, blanks replaced by `/`)
+           or `IndexError` when an assignment is not a valid mode index
   Matrices / tapes: rows separated by `;`, entries by `,`.  Shapes are validated (`bad-op` otherwise).
 -/
 namespace Drv.C03
@@ -26,6 +31,11 @@ def kindArg (args : List (String × String)) : Option Kind :=
   | _ => none
 
 def square (d : Nat) (m : List (List Float)) : Bool := m.length == d && m.all (·.length == d)
+
+def showStep (o : StepOut Float) (sep : String) : String :=
+  sep.intercalate [showFloat o.shape, showFloat o.scale, showFloat o.s, toString o.draws, showList showFloat o.cand,
+    showBool o.inb, showList showFloat o.prop, showFloat o.dot, showFloat o.dotp, showFloat o.factor, showFloat o.alpha,
+    showBool o.accept, showList showFloat o.newU]
 
 def kstep (args : List (String × String)) : Option String := do
   let kind ← kindArg args
@@ -48,9 +58,52 @@ def kstep (args : List (String × String)) : Option String := do
       || !per.all (· < d) || !refl.all (· < d) then none
   else
     let o := step (α := Float) { kind, u, mu, chol, invcov, nu, sigma, beta, l, lp, g, r, z, per, refl }
-    some (s!"{showFloat o.shape} {showFloat o.scale} {showFloat o.s} {o.draws} {showList showFloat o.cand} {showBool o.inb} " ++
-          s!"{showList showFloat o.prop} {showFloat o.dot} {showFloat o.dotp} {showFloat o.factor} {showFloat o.alpha} " ++
-          s!"{showBool o.accept} {showList showFloat o.newU}")
+    some (showStep o " ")
+
+def parseMats? (s : String) : Option (List (List (List Float))) :=
+  if s.isEmpty || s == "-" then some [] else (s.splitOn "|").mapM parseRows?
+
+def zip7 : List (List Float) → List Nat → List Float → List Float → List Float → List Float → List (List Float)
+    → List (Walker Float)
+  | u :: us, a :: as, l :: ls, lp :: lps, g :: gs, r :: rs, z :: zs =>
+    { u, assign := a, l, lp, g, r, z } :: zip7 us as ls lps gs rs zs
+  | _, _, _, _, _, _, _ => []
+
+def krun (args : List (String × String)) : Option String := do
+  let kind ← kindArg args
+  let d ← (getArg args "d").bind String.toNat?
+  let mus ← mArg args "mus"
+  let chols ← (getArg args "chols").bind parseMats?
+  let invcovs ← (getArg args "invcovs").bind parseMats?
+  let nus ← vArg args "nus"
+  let sigmas ← vArg args "sigmas"
+  let beta ← fArg args "beta"
+  let iter ← fArg args "iter"
+  let sigma0 ← fArg args "sigma0"
+  let per ← (getArg args "per").bind parseNatList?
+  let refl ← (getArg args "refl").bind parseNatList?
+  let us ← mArg args "us"
+  let assign ← (getArg args "assign").bind parseNatList?
+  let ls ← vArg args "ls"
+  let lps ← vArg args "lps"
+  let gs ← vArg args "gs"
+  let rs ← vArg args "rs"
+  let zs ← mArg args "zs"
+  let K := mus.length
+  let n := us.length
+  if d == 0 || K == 0 || chols.length != K || invcovs.length != K || nus.length != K || sigmas.length != K
+      || !mus.all (·.length == d) || !chols.all (square d) || !invcovs.all (square d)
+      || assign.length != n || ls.length != n || lps.length != n || gs.length != n || rs.length != n || zs.length != n
+      || !us.all (·.length == d) || !zs.all (·.length == d) || !per.all (· < d) || !refl.all (· < d) then none
+  else
+    let modes : List (Mode Float) :=
+      (List.zip (List.zip mus chols) (List.zip invcovs nus)).map fun p =>
+        { mu := p.1.1, chol := p.1.2, invcov := p.2.1, nu := p.2.2 }
+    let i : RunIn Float := { kind, modes, sigmas, beta, per, refl, iter, sigma0,
+                             walkers := zip7 us assign ls lps gs rs zs }
+    match runStep i with
+    | none => some "IndexError"
+    | some (outs, sig) => some (s!"{"|".intercalate (outs.map (showStep · "/"))} {showList showFloat sig}")
 
 def adapt (args : List (String × String)) : Option String := do
   let kind ← kindArg args
@@ -66,6 +119,7 @@ def handle (cmd : String) (args : List (String × String)) : Option String :=
   match cmd with
   | "kstep.F" => some ((kstep args).getD "bad-op")
   | "adapt.F" => some ((adapt args).getD "bad-op")
+  | "krun.F" => some ((krun args).getD "bad-op")
   | _ => none
 
 end Drv.C03
